@@ -7,8 +7,10 @@ import (
 	"strings"
 	"sync"
 	"testing"
+	"time"
 
 	"verifharness/evid"
+	"verifharness/ircsim"
 
 	"github.com/fluffle/goirc/client"
 	"pgregory.net/rapid"
@@ -41,6 +43,9 @@ type c01Msg struct {
 	CVerb  Q    `json:"ctcp_verb"`
 	CText  Q    `json:"ctcp_text"`
 	Conn   bool `json:"conn_leg"`
+	// Faulty: (connection leg) the line arrives in two reads, cut at this offset, with a transient read
+	// error between them (0: delivered whole)
+	FaultCut int `json:"fault_cut,omitempty"`
 }
 
 func escapeTagValue(v string) string {
@@ -580,6 +585,9 @@ func runC01(m *c01Msg) *Violation {
 	if !m.Conn {
 		return nil
 	}
+	if m.FaultCut > 0 && m.FaultCut < len(wire) {
+		return runC01Faulty(m, e, wire)
+	}
 	cc, v := c01Client()
 	if v != nil {
 		return v
@@ -621,6 +629,43 @@ func runC01(m *c01Msg) *Violation {
 	return nil
 }
 
+// runC01Faulty: a fresh client receives the message in two reads with a transient read error between
+// them. The client may give the connection up; if it delivers anything for the verb, it is the message.
+func runC01Faulty(m *c01Msg, e c01Expect, wire string) *Violation {
+	tc := newTestClient(cliOpts{Flood: true})
+	defer tc.shutdown()
+	var mu sync.Mutex
+	var got []*client.Line
+	tc.C.HandleFunc(e.Cmd, func(_ *client.Conn, l *client.Line) {
+		mu.Lock()
+		got = append(got, deepCopyLine(l))
+		mu.Unlock()
+	})
+	if err := tc.connect(); err != nil {
+		return violationf("C01", "connect failed: %v", err)
+	}
+	c := tc.conn()
+	c.Send(wire[:m.FaultCut])
+	c.SendErrOnce(ircsim.TempError{})
+	c.Send(wire[m.FaultCut:] + "\r\n")
+	// the client hangs up, or goes on and answers a marker: both are fine
+	if !waitCond(100*time.Millisecond, func() bool { return !tc.C.Connected() }) {
+		tc.syncIn(2 * time.Second)
+	}
+	waitCond(stallTimeout(), func() bool { return dispatchFrames() == 0 })
+	mu.Lock()
+	defer mu.Unlock()
+	if len(got) > 1 {
+		return violationf("C01", "transient read error inside %q (after %d bytes): %d events delivered for one message", wire, m.FaultCut, len(got))
+	}
+	for _, l := range got {
+		if v := checkLineAgainst("C01", l, e, fmt.Sprintf("handler, message received in two reads with a transient read error after %d bytes", m.FaultCut)); v != nil {
+			return v
+		}
+	}
+	return nil
+}
+
 func TestC01(t *testing.T) {
 	col := evid.New("C01", "structured RFC2812/IRCv3 message values rendered by a reference printer; non-trivial = tag value needing an escape, or >=2 params with a multi-space gap, or empty / ' :'-containing trailing, or CTCP, or nick!user@host source; distinct by wire text")
 	defer finish(t, col)
@@ -630,6 +675,9 @@ func TestC01(t *testing.T) {
 		m := genC01(t)
 		n++
 		m.Conn = connEvery > 0 && n%connEvery == 0
+		if m.Conn && n%(connEvery*16) == 0 {
+			m.FaultCut = rapid.IntRange(1, 60).Draw(t, "fault_cut")
+		}
 		if m.Conn {
 			journal(m)
 		}
